@@ -1,7 +1,8 @@
 ------------------------- MODULE Trace_ControlAgree -------------------------
 (* Trace validation (code -> spec) for ControlAgree.tla.  A trace is what one *)
 (* call of the real wait produced on a scripted timeline of snapshots:        *)
-(*   {e: "Start",  wait, mode}                                                *)
+(*   {e: "Start",  mode, cw, given, pc}   cluster-wide wait, whether a        *)
+(*        per-call wait was passed, and its value                             *)
 (*   {e: "Poll",   at, snap: {local, pv: [...], st: [...]}}   one per round   *)
 (*        trip of the two schema-version queries, with the snapshot that was  *)
 (*        current at that (virtual) instant                                   *)
@@ -31,7 +32,8 @@ SnapOf(j) == [local |-> j.local,
 TraceInit == /\ tid \in 1..NTraces
              /\ l = 2
              /\ Init
-             /\ Traces[tid][1].e = "Start" /\ wait = Traces[tid][1].wait /\ mode = Traces[tid][1].mode
+             /\ Traces[tid][1].e = "Start" /\ mode = Traces[tid][1].mode
+             /\ cfg = [cw |-> Traces[tid][1].cw, given |-> Traces[tid][1].given, pc |-> Traces[tid][1].pc]
 
 TraceNext ==
     /\ l <= Len(Tr)
@@ -40,7 +42,7 @@ TraceNext ==
     /\ LET e == Tr[l] IN
        \/ e.e = "Poll"   /\ Poll(SnapOf(e.snap), e.at)
        \/ e.e = "PollLost" /\ PollLost(e.at, e.end)
-       \/ e.e = "Finish" /\ Finish(e.v, e.at)
+       \/ e.e = "Finish" /\ (Finish(e.v, e.at) \/ (e.v = "yes" /\ Skip(e.at)))   \* "went on normally": agreed, or bypassed
        \/ e.e = "Abort"  /\ Abort(e.v, e.at)
 
 TraceSpec == TraceInit /\ [][TraceNext]_tvars
